@@ -26,7 +26,7 @@ ASSUMPTIONS = [
     'small-scope hypothesis: <= 3 nodes, <= 3 relations',
 ]
 
-T.ALPHABETS['c11amr'] = {'concepts': ['x'], 'roles': [':mod', ':mod-of', ':polarity~e.1', ':ARG0', ':poss-of'], 'atoms': ['-', 'k~2'], 'refs': 'all+aligned0'}
+T.ALPHABETS['c11amr'] = {'concepts': ['x'], 'roles': [':mod', ':mod-of', ':polarity~e.1', ':ARG0', ':poss-of'], 'atoms': ['-', 'k~e.1'], 'refs': 'all+aligned0'}
 T.ALPHABETS['c11mini'] = {'concepts': ['x'], 'roles': [':mod', ':accompanier-of~1', ':ARG0'], 'atoms': ['-'], 'refs': 'all'}
 T.ALPHABETS['c11t'] = {'concepts': ['x', 'ra'], 'roles': [':a', ':a-of~1', ':b'], 'atoms': ['k'], 'refs': 'all'}
 T.ALPHABETS['c11nc'] = {'concepts': ['x', 'have-mod-91'], 'roles': [':ARG1', ':ARG2', ':ARG1-of', ':ARG2-of', ':ARG0'], 'atoms': ['-'], 'refs': 'all'}
@@ -103,7 +103,7 @@ def _rename(t, ren):
 
 def check(case, ctx):
     t0 = T.totuple(case['t'])
-    variants = VARIANTS if ctx.sub == 'inverse' else [None]
+    variants = VARIANTS if ctx.sub == 'inverse' else [None, {'a': 'a2', 'b': '_'}]
     for ren in variants:
         t = t0 if ren is None else _rename(t0, ren)
         if ren is not None and t == t0:
